@@ -28,6 +28,8 @@ def run(repo, run, tier):
     aliasing(repo, run, cm)
     early_return(repo, run, cm)
     settings_reach_integrator(repo, run, cm)
+    reset_unconditional(repo, run)
+    no_inplace_on_aliases(repo, run)
 
 
 def _integrate_writes(cm):
@@ -276,3 +278,95 @@ def settings_reach_integrator(repo, run, cm):
             run.report("C13.5", DS, st_fn, "the %s setter does not rebuild the integrator after storing the new value: integrators that copied the tolerance at construction (%s) keep "
                                            "the old one, so a system whose tolerance was changed behaves differently from one constructed with that tolerance (and differently "
                                            "before and after reset())" % (attr, "; ".join("%s: %s" % s_ for s_ in sorted(set(snap))[:2])), text="%s setter rebuild" % attr)
+
+
+def reset_unconditional(repo, run, rule_id="C13.6"):
+    """reset() restores the initial state whatever happened before: its re-initialisations must not be skippable.  A guard such as `if status == 0: return`
+    looks like an optimisation but leaves everything that changed WITHOUT an integration (evaluation counters, a step size assigned by the user, ...) as it is."""
+    rid = run.rule(rule_id, "OdeSystem.reset() has no early exit and every re-initialisation in it is unconditional (top level of the function body)", floor=2)
+    fn = repo.get(DS, "OdeSystem.reset")
+    run.analysed_fn(DS, fn)
+    early = [st for st in walk_no_nested(fn) if isinstance(st, (ast.Return, ast.Raise)) and not (st._parent is fn and fn.body[-1] is st)]
+    run.judged(rid, "early exits of reset(): %d" % len(early), ok=not early)
+    for st in early:
+        from ..sym import path_condition
+        pc, _ = path_condition(st, fn)
+        run.report(rule_id, DS, st, "reset() can return before re-initialising the system (under `%s`): state that changed without an integration having been run -- the evaluation "
+                                    "counter after manual calls or Jacobian probes, a user-assigned dt -- survives the reset" % (src(st._parent.test)[:60] if isinstance(st._parent, ast.If) else "a condition"))
+    conditional = []
+    n = 0
+    for st in ast.walk(fn):
+        if isinstance(st, (ast.Assign, ast.AugAssign)) or (isinstance(st, ast.Expr) and isinstance(st.value, ast.Call) and (dotted(st.value.func) or "").startswith("self.")):
+            n += 1
+            if st._parent is not fn:
+                par = st._parent
+                # `if self.x: self.x = <empty literal>` is unconditional in effect: where the guard is false the attribute already is empty
+                idem = isinstance(par, ast.If) and not par.orelse and par._parent is fn and isinstance(st, ast.Assign) and len(st.targets) == 1 and \
+                    src(par.test) == src(st.targets[0]) and isinstance(st.value, (ast.List, ast.Dict, ast.Tuple)) and not getattr(st.value, "elts", getattr(st.value, "keys", []))
+                if not idem:
+                    conditional.append(st)
+    run.judged(rid, "re-initialising statements of reset(): %d, conditional: %d" % (n, len(conditional)), ok=not conditional)
+    for st in conditional[:3]:
+        run.report(rule_id, DS, st, "a re-initialisation of reset() is conditional: on the other branch the attribute keeps the value of the previous run")
+
+
+def no_inplace_on_aliases(repo, run):
+    """reset() restores the initial step from `__dt0`, and a fresh system starts from the dt it was given: both are array OBJECTS that are handed to the integrator
+    as `timestep` on every step.  In-place arithmetic (`x /= 2`) on a local that is merely another name for such an argument rewrites the caller's array --
+    the system's stored step and its saved initial step -- from inside the integrator."""
+    rid = run.rule("C13.7", "in the integrators' step code an augmented assignment to a local name is applied only to a FRESH value (result of copy / arithmetic / a constant), "
+                            "never to a name bound by plain assignment from another name, a parameter or a call result (which may be the caller's own array)", floor=2)
+    ITY = "desolver/integrators/integrator_types.py"
+    FRESH_CALLS = {"copy", "clone", "zeros", "ones", "zeros_like", "ones_like", "asarray", "array", "abs", "absolute", "sign", "minimum", "maximum", "float", "int"}
+    n = 0
+    for q, fn in repo.functions(ITY):
+        params = {a.arg for a in fn.args.posonlyargs + fn.args.args + fn.args.kwonlyargs}
+        augs = [st for st in walk_no_nested(fn) if isinstance(st, ast.AugAssign) and isinstance(st.target, ast.Name)]
+        for st in augs:
+            name = st.target.id
+            defs = []
+            for d in walk_no_nested(fn):
+                if isinstance(d, ast.Assign):
+                    for t in d.targets:
+                        if isinstance(t, ast.Name) and t.id == name:
+                            defs.append((d, d.value))
+                        elif isinstance(t, (ast.Tuple, ast.List)) and any(isinstance(x, ast.Name) and x.id == name for x in ast.walk(t)):
+                            defs.append((d, None))
+                elif isinstance(d, (ast.For,)) and any(isinstance(x, ast.Name) and x.id == name for x in ast.walk(d.target)):
+                    defs.append((d, None))
+
+            def branch_chain(node):
+                out = []
+                ch, p_ = node, node._parent
+                while p_ is not None and p_ is not fn:
+                    if isinstance(p_, ast.If):
+                        out.append((id(p_), "body" if any(ch is b for b in p_.body) else "orelse"))
+                    ch, p_ = p_, p_._parent
+                return out
+            sc = dict(branch_chain(st))
+            # a definition inside the other branch of an `if` that encloses the augmented assignment cannot reach it
+            defs = [(d, v) for d, v in defs if all(sc.get(k, br) == br for k, br in branch_chain(d)) and d.lineno <= st.lineno]
+
+            def fresh(v):
+                if v is None:
+                    return False
+                if isinstance(v, ast.Constant):
+                    return True
+                if isinstance(v, (ast.BinOp, ast.UnaryOp)):
+                    return True
+                if isinstance(v, ast.Call) and (fname(v) or "").split(".")[-1] in FRESH_CALLS:
+                    # asarray / array may return their argument unchanged: fresh only for copy-like calls and arithmetic helpers
+                    return (fname(v) or "").split(".")[-1] not in ("asarray", "array")
+                return False
+            is_int_counter = isinstance(st.value, ast.Constant) and isinstance(st.value.value, int) and all(
+                v is not None and isinstance(v, ast.Constant) and isinstance(v.value, int) for _, v in defs) and bool(defs)
+            ok = (name not in params and bool(defs) and all(fresh(v) for _, v in defs)) or is_int_counter
+            n += 1
+            run.judged(rid, "%s: `%s` on a %s value" % (q, src(st), "fresh" if ok else "possibly shared"), ok=ok)
+            if not ok:
+                why = "a parameter" if name in params and not defs else "bound by `%s`" % src([d for d, v in defs if not fresh(v)][0])[:70] if [d for d, v in defs if not fresh(v)] else "a parameter"
+                run.report("C13.7", ITY, st, "`%s` modifies in place a local that may be the caller's own array (%s): the step array handed in by OdeSystem is its stored `dt` "
+                                             "(and, by aliasing, the saved initial step reset() restores), so the integrator rewrites the system's initial settings" % (src(st), why))
+    if n == 0:
+        run.judged(rid, "no augmented assignment to a local name in the integrators", nontrivial=False)
+        run.judged(rid, "(nothing to judge)", nontrivial=False)
